@@ -272,7 +272,7 @@ var interpPkgPrefixes = []string{
 	"encoding/binary", "math/bits", "errors", "bytes", "strings", "net/netip", "unicode/utf8", "unicode",
 	"sort", "slices", "cmp", "io", "strconv", "internal/bytealg", "internal/byteorder", "internal/stringslite",
 	"internal/itoa", "math", "time", "context", "net", "net/url", "container/list", "sync/atomic",
-	"golang.org/x/exp", "golang.org/x/time/rate", "encoding/base64", "internal/godebug", "unique", "maps", "iter", "bufio", "path",
+	"golang.org/x/exp", "golang.org/x/sync", "golang.org/x/time/rate", "encoding/base64", "internal/godebug", "unique", "maps", "iter", "bufio", "path",
 }
 
 func (e *Engine) allowInterp(fn *ssa.Function) bool {
